@@ -27,6 +27,7 @@ import os
 import pathlib
 import re
 import sys
+import threading
 import types
 import typing
 import warnings
@@ -253,6 +254,9 @@ def context(module: types.ModuleType) -> typing.Iterable[None]:
             del sys.modules[module.__name__]
 
 
+_LOADING = threading.RLock()
+
+
 def load(
     name: str, entrypoint: typing.Callable[..., None], path: typing.Optional[typing.Union[str, pathlib.Path]] = None
 ) -> typing.Any:
@@ -299,16 +303,17 @@ def load(
         LOGGER.debug('Component setup using %s', component)
         result = component
 
-    entrypoint_original = importlib.import_module(entrypoint.__module__)
-    entrypoint_patched = types.ModuleType(entrypoint.__module__)
-    for item in dir(entrypoint_original):
-        setattr(entrypoint_patched, item, getattr(entrypoint_original, item))
-    setattr(entrypoint_patched, entrypoint.__name__, patched)
     called = False
     result = None
-    with context(entrypoint_patched):
-        LOGGER.debug('Importing project component from %s', name)
-        isolated(name, path)
+    with _LOADING:  # the import system state swapped below is process-global: one component gets loaded at a time
+        entrypoint_original = importlib.import_module(entrypoint.__module__)
+        entrypoint_patched = types.ModuleType(entrypoint.__module__)
+        for item in dir(entrypoint_original):
+            setattr(entrypoint_patched, item, getattr(entrypoint_original, item))
+        setattr(entrypoint_patched, entrypoint.__name__, patched)
+        with context(entrypoint_patched):
+            LOGGER.debug('Importing project component from %s', name)
+            isolated(name, path)
     if not called:
         raise forml.InvalidError(f'Component setup incomplete: {name}')
     return result
